@@ -6,6 +6,7 @@ import (
 	"time"
 
 	"github.com/filecoin-project/go-f3/gpbft"
+	"github.com/filecoin-project/go-f3/verifharness/vcrypto"
 	"pgregory.net/rapid"
 )
 
@@ -466,6 +467,13 @@ func (w *World) ByzAction(t *rapid.T, profile string) {
 	if m == nil {
 		return
 	}
+	if rapid.IntRange(0, 7).Draw(t, "byzsuppvariant") == 0 {
+		// the same vote over supplemental data that differs from the instance's only in its
+		// commitments (same power-table CID), validly signed by the sender, any genuine
+		// justification kept: it must never count anywhere
+		m = w.suppVariant(m)
+		w.Stats.SuppVariants++
+	}
 	// destinations: a generated subset (per-destination equivocation is the normal case)
 	var dests []int
 	for i := range w.Nodes {
@@ -773,4 +781,20 @@ func (w *World) Summary() string {
 		s += fmt.Sprintf("[node %d started=%v progress=%s decided=%d sent=%d] ", n.ID, n.Started, fmtInstant(n.P.Progress().Instant), len(n.Decided), len(n.Sent))
 	}
 	return s
+}
+
+
+// suppVariant re-signs m (a coalition member's message) over supplemental data whose
+// commitments differ from the instance's.
+func (w *World) suppVariant(m *gpbft.GMessage) *gpbft.GMessage {
+	ic := w.Cfg.Inst(m.Vote.Instance)
+	i := w.Cfg.IndexOf(m.Vote.Instance, m.Sender)
+	if ic == nil || i < 0 {
+		return m
+	}
+	out := cloneMsg(m)
+	out.Vote.SupplementalData.Commitments[0] ^= 0x5a
+	out.Vote.SupplementalData.Commitments[31] ^= 0x01
+	out.Signature = vcrypto.RawSign(ic.Table[i].PubKey, out.Vote.MarshalForSigning(w.Cfg.NN))
+	return out
 }
